@@ -43,6 +43,15 @@ Theorem C10_routes_agree : forall (A : Type) (mk : N -> N -> A) (mk3 : N -> N ->
   collect_ranges_files mk3 id (with_files l) = collect_ranges mk3 id (strip_files l).
 Proof. exact routes_agree_lemma. Qed.
 
+(* OBJECTS GOING AWAY (0.7.w5b): destroying the map (or handle) of one slot empties that slot and is the identity on
+   every other slot - whatever was derived from it or it was derived from keeps its regions.  (In the model regions
+   are values shared by list elements; that the real Arc-shared MEMORY survives the destruction of another object is
+   the `intact` verdict of the correspondence runs, which C10_model_ok demands after every ODropMap / ODropRemoved.) *)
+Theorem C10_drop_leaves_others_intact : forall (T : Type) (l : list (option T)) (i j : N),
+  get (drop_slot l (N.to_nat i)) i = None /\
+  (j <> i -> get (drop_slot l (N.to_nat i)) j = get l j).
+Proof. exact drop_leaves_others_intact_lemma. Qed.
+
 (* wf_layout (non-empty regions ending below 2^64, strictly sorted, pairwise disjoint) is the same as
    "every region lies entirely below every later one" *)
 Theorem C10_wf_layout_before : forall (A : Type) (rs rl : A -> N) L,
@@ -184,12 +193,24 @@ Example C10_routes_nonvacuous :
    mkobs 0 [mkreg 8 4096 4096; mkreg 9 B 4096]; mkobs 1 []].
 Proof. vm_compute. reflexivity. Qed.
 
+(* non-vacuity of the drops: a map derived by insertion is dropped, the map it came from still answers; a dropped
+   map is no operand any more *)
+Example C10_drop_nonvacuous :
+  run_C10 {| c_mode := Debug; c_ops :=
+    [OFromRanges [(0, 2); (4, 3)]; ONew 2 2; OInsert 0 2; ODropMap 1; OFind 0 5; OFind 1 5; ODropMap 1;
+     ORemove 0 4 3; ODropRemoved 0; ODropMap 0; OFind 2 0] |} =
+  [mkobs 0 [mkreg 0 0 2; mkreg 1 4 3]; mkobs 0 []; mkobs 0 [mkreg 0 0 2; mkreg 2 2 2; mkreg 1 4 3]; mkobs 0 [];
+   mkobs 0 [mkreg 1 4 3]; mkobs 8 []; mkobs 8 []; mkobs 0 [mkreg 1 4 3; mkreg 0 0 2]; mkobs 0 []; mkobs 0 [];
+   mkobs 0 [mkreg 0 0 2]].
+Proof. vm_compute. reflexivity. Qed.
+
 Print Assumptions C10_model_ok.
 Print Assumptions C10_history_valid.
 Print Assumptions C10_region_new_refuses.
 Print Assumptions C10_every_route_refuses.
 Print Assumptions C10_ranges_with_files_refuse.
 Print Assumptions C10_routes_agree.
+Print Assumptions C10_drop_leaves_others_intact.
 Print Assumptions C10_wf_layout_before.
 Print Assumptions C10_from_ok_iff.
 Print Assumptions C10_from_err_iff.
